@@ -28,6 +28,7 @@ func init() {
 // one workload: open a session (suite by seed), a series of commands with some retried answers, sometimes a second
 // session on the same connection, close. Returns the caller-visible results and what the BMC decoded.
 func concWorkload(seed int64) string {
+	var late []func()
 	rng := rand.New(rand.NewSource(seed))
 	var out []string
 	b := newSimBMC([]byte(fixedPass), nil)
@@ -76,6 +77,9 @@ func concWorkload(seed int64) string {
 			return ipmiRsp(netfn, cmd, 0, []byte{0x20, 0x81, 0x02, 0x15, 0x02, 0xbf, 0x57, 0x01, 0x00, 0x34, 0x12})
 		case netfn == 0x06 && cmd == 0x3c:
 			return ipmiRsp(netfn, cmd, 0, nil)
+		case netfn == 0x06 && cmd == 0x3d: // Get Session Info, long form: this console's address as THIS BMC sees it
+			return ipmiRsp(netfn, cmd, 0, []byte{1, 5, 1, 2, 4, 0x11, 10, byte(seed >> 8), byte(seed), 7,
+				0x02, 0x42, byte(seed >> 16), byte(seed >> 8), byte(seed), 0x99, byte(seed), 0x26})
 		case netfn == 0x06 && cmd == 0x37:
 			return ipmiRsp(netfn, cmd, 0, []byte{1, 2, 3, 4, 5, 6, 7, 8, 9, 10, 11, 12, 13, 14, 15, byte(seed)})
 		case netfn == 0x00 && cmd == 0x01:
@@ -135,7 +139,18 @@ func concWorkload(seed int64) string {
 		}
 		out = append(out, fmt.Sprintf("open=%d/%d", sess.AuthenticationAlgorithm, sess.IntegrityAlgorithm))
 		for k := 0; k < 3+rng.Intn(6); k++ {
-			switch rng.Intn(5) {
+			switch rng.Intn(6) {
+			case 5:
+				// the response struct is KEPT and read only at the end of the workload, after every other connection in the
+				// process has decoded its own (seed C19-B14: a shared backing array behind the IP slice)
+				si, err := sess.GetSessionInfo(ctx, &ipmi.GetSessionInfoReq{})
+				if err != nil {
+					out = append(out, "sessinfo=err")
+				} else {
+					idx := len(out)
+					out = append(out, "")
+					late = append(late, func() { out[idx] = fmt.Sprintf("sessinfo=%v/%x/%d/%d", si.IP, si.MAC, si.Port, si.UserID) })
+				}
 			case 3:
 				repo, err := bmc.RetrieveSDRRepository(ctx, sess)
 				if err != nil {
@@ -186,9 +201,24 @@ func concWorkload(seed int64) string {
 	}
 	t.Close()
 	closeRelay() // the relay's goroutine has ended before the request log is read
+	concBarrier()
+	for _, f := range late {
+		f()
+	}
 	mu.Lock()
 	defer mu.Unlock()
 	return strings.Join(out, ",") + " | " + strings.Join(reqLog, ",")
+}
+
+// concBarrier: when N workloads run concurrently they meet here, after their last exchange and before reading the results they
+// kept; a solo run passes straight through
+var concWG *sync.WaitGroup
+
+func concBarrier() {
+	if concWG != nil {
+		concWG.Done()
+		concWG.Wait()
+	}
 }
 
 var concSuiteAlgs = map[byte][3]byte{1: {1, 0, 0}, 2: {1, 1, 0}, 3: {1, 1, 1}, 17: {3, 4, 1}, 8: {2, 2, 1}}
@@ -223,6 +253,9 @@ func execConc(a []string) (string, string) {
 	n, seed := atoi(a[0]), int64(atoi(a[1]))
 	par := make([]string, n)
 	var wg sync.WaitGroup
+	var barrier sync.WaitGroup
+	barrier.Add(n)
+	concWG = &barrier
 	for i := 0; i < n; i++ {
 		wg.Add(1)
 		go func(i int) {
@@ -231,6 +264,7 @@ func execConc(a []string) (string, string) {
 		}(i)
 	}
 	wg.Wait()
+	concWG = nil
 	same := true
 	solos := make([]string, n)
 	for i := 0; i < n; i++ {
